@@ -63,6 +63,7 @@ type KDC struct {
 	TicketLifetime  time.Duration
 	ServiceLifetime time.Duration // lifetime of service tickets (0 = TicketLifetime)
 	RenewLifetime   time.Duration
+	ExtraHints      bool                                     // PREAUTH_REQUIRED / FAILED e-data also carries ETYPE-INFO (another etype first) and PW-SALT after ETYPE-INFO2
 	Backdate        time.Duration                            // initial tickets carry an authtime/starttime this far in the past
 	Referrals       map[string]string                        // service host suffix -> next realm (referral TGT krbtgt/NEXT@Realm)
 	CrossKeys       map[string]map[int32]types.EncryptionKey // realm -> keys of krbtgt/realm@Realm
@@ -257,6 +258,15 @@ func (k *KDC) handleAS(raw []byte) []byte {
 		}
 	}
 	info := types.PADataSequence{{PADataType: 19, PADataValue: etypeInfo2(cl, et, k.Realm)}}
+	if k.ExtraHints {
+		// legal: RFC 4120 5.2.7.5 makes ETYPE-INFO2 win whatever else is sent and wherever it stands
+		other := int32(23)
+		if et == 23 {
+			other = 17
+		}
+		ei, _ := asn1.Marshal(types.ETypeInfo{{EType: other, Salt: []byte("other-salt")}, {EType: et, Salt: []byte(defaultSalt(k.Realm, cl.Name))}})
+		info = append(info, types.PAData{PADataType: 11, PADataValue: ei}, types.PAData{PADataType: 3, PADataValue: []byte("pw-salt-hint")})
+	}
 	if k.RequirePreauth && ts == nil {
 		ed, _ := asn1.Marshal(info)
 		return krbErr(k.Realm, sname, 25, ed)
